@@ -31,6 +31,9 @@ pub enum Pre {
     EolFlipped,
     /// the correct bytes with the final line ending removed (or added)
     FinalNewlineToggled,
+    /// the correct bytes, same length, with one byte changed at position (pos*len)>>16 (a
+    /// leftover that a comparison by length, by prefix or by whole blocks takes for up to date)
+    ByteFlipped(u16),
 }
 
 #[derive(Debug, Clone, Serialize, Deserialize)]
@@ -47,7 +50,7 @@ pub struct Case {
 }
 
 fn gen_pre(c: &mut Choices) -> Pre {
-    match c.weighted(&[2, 2, 3, 1, 4, 3, 1, 2, 2]) {
+    match c.weighted(&[2, 2, 3, 1, 4, 3, 1, 2, 2, 2]) {
         0 => Pre::Absent,
         1 => Pre::Correct,
         2 => Pre::Stale,
@@ -59,7 +62,8 @@ fn gen_pre(c: &mut Choices) -> Pre {
         }
         6 => Pre::Longer,
         7 => Pre::EolFlipped,
-        _ => Pre::FinalNewlineToggled,
+        8 => Pre::FinalNewlineToggled,
+        _ => Pre::ByteFlipped(if c.chance(1, 2) { u16::MAX } else { c.raw() }),
     }
 }
 
@@ -109,6 +113,14 @@ fn apply_pre(pre: &Pre, correct: Option<&Vec<u8>>) -> Option<Vec<u8>> {
         Pre::EolFlipped => {
             let t = String::from_utf8_lossy(&base).to_string();
             Some(if t.contains("\r\n") { t.replace("\r\n", "\n") } else { t.replace('\n', "\r\n") }.into_bytes())
+        }
+        Pre::ByteFlipped(pos) => {
+            let mut v = base;
+            if !v.is_empty() {
+                let k = (((*pos as usize) * v.len()) >> 16).min(v.len() - 1);
+                v[k] ^= 0x01;
+            }
+            Some(v)
         }
         Pre::FinalNewlineToggled => {
             let mut v = base;
